@@ -28,6 +28,7 @@ IRegs == 2..7   DRegs == 12..14   FRegs == 15..16   LRegs == 17..18
 PRegs == 19..22   RPG == 23          \* pointers into the scratch area kept live over the whole body; address of gdat
 MainRegTy == <<"i", "i", "i", "i", "i", "i", "i", "i", "i", "i", "i", "d", "d", "d", "f", "f", "ld", "ld", "i", "i", "i", "i", "i">>
              \o [i \in 1..NSlots |-> "i"]     \* one alloca pointer register per slot (24..): every such pointer has a single definition
+             \o [i \in 1..NSlots |-> "i"]     \* one stack-mark register per slot (bstart/bend)
 Reg(r) == [k |-> "reg", r |-> r]
 Imm(w) == [k |-> "imm", w |-> w]
 DRef == [k |-> "dref", b |-> 2]       \* address of the module's bss item gdat (memory block 2)
@@ -146,6 +147,21 @@ G14 == [name |-> "g14", params |-> <<"i64", "i64", "i64", "i64", "blk1_16">>, re
 G15 == [name |-> "g15", params |-> <<"p", "i64">>, res |-> <<"i64">>, regty |-> <<"i", "i", "i">>,
         insns |-> <<InsIn("mov", Reg(3), <<Mem("i64", 0, 1, 0, 1)>>), InsIn("add", Reg(3), <<Reg(3), Reg(2)>>),
                     InsIn("mov", Mem("i64", 0, 1, 0, 1), <<Reg(2)>>), [op |-> "ret", s |-> <<Reg(3)>>]>>]
+(* g16 (i64 n, ...) -> i64, d : sums n variable i64 arguments, then doubles the double argument that follows them *)
+G16 == [name |-> "g16", params |-> <<"i64">>, vararg |-> TRUE, res |-> <<"i64", "d">>, regty |-> <<"i", "i", "i", "i", "d">>,
+        insns |-> <<[op |-> "alloca", d |-> Reg(2), s |-> <<Imm(FromNat(32))>>],
+                    [op |-> "va_start", s |-> <<Reg(2)>>],
+                    InsIn("mov", Reg(3), <<Imm(Zero64)>>),
+                    Br("ble", 9, <<Reg(1), Imm(Zero64)>>),
+                    [op |-> "va_arg", d |-> Reg(4), s |-> <<Reg(2)>>, ty |-> "i64"],
+                    InsIn("add", Reg(3), <<Reg(3), Mem("i64", 0, 4, 0, 1)>>),
+                    InsIn("sub", Reg(1), <<Reg(1), Imm(One64)>>),
+                    [op |-> "jmp", l |-> 4],
+                    [op |-> "va_arg", d |-> Reg(4), s |-> <<Reg(2)>>, ty |-> "d"],
+                    InsIn("dmov", Reg(5), <<Mem("d", 0, 4, 0, 1)>>),
+                    InsIn("dadd", Reg(5), <<Reg(5), Reg(5)>>),
+                    [op |-> "va_end", s |-> <<Reg(2)>>],
+                    [op |-> "ret", s |-> <<Reg(3), Reg(5)>>]>>]
 FImm(fmt, x) == [k |-> "fimm", fmt |-> fmt, x |-> x]
 FImmVals == {Fin(0, 1, 0), Fin(1, 3, -1), Fin(0, 5, -3), Fin(0, 3, 20), Fin(0, 13, -4), FZero(0), Fin(0, 3, -40), Fin(1, 7, -33)}
 
@@ -181,22 +197,23 @@ Fmts == {"d", "f", "ld"}
 Pfx(fmt) == fmt
 
 KindsInt == {"ibin", "iun", "shift", "div", "br2", "br1", "loop", "ovf", "switch", "callg1", "callg2", "ext", "alloca", "jmpi", "idx",
-             "pld", "pst", "alloca2", "gcall", "dload", "lref1", "lref2", "addrst", "addrld", "addrcall"}
-KindsFp == {"fbin", "fcmp", "fbr", "i2f", "f2i", "fmovm", "f2f", "callg3", "addrfp"}
+             "pld", "pst", "alloca2", "gcall", "dload", "lref1", "lref2", "addrst", "addrld", "addrcall", "bsblk"}
+KindsFp == {"fbin", "fcmp", "fbr", "i2f", "f2i", "fmovm", "f2f", "callg3", "addrfp", "callva"}
 (* "link": the constructs MIR_link rewrites (calls to inline, allocas, jumps and branch chains, memory operands) *)
 KindsLink == {"callg1", "callg2", "callg3", "ext", "alloca", "br2", "br1", "loop", "switch", "ibin", "idx", "jmpi", "ovf", "calla",
-              "callg6", "callg7", "gcall", "rblk", "blkv", "alloca2", "lref1", "lref2", "addrst", "addrcall"}
+              "callg6", "callg7", "gcall", "rblk", "blkv", "alloca2", "lref1", "lref2", "addrst", "addrcall", "bsblk", "callva"}
 KindsOf == IF Vocab = "int" THEN KindsInt ELSE IF Vocab = "link" THEN KindsLink
          ELSE IF Vocab = "exec" THEN {"callg1", "callg2", "callg3", "calla", "ext", "icall", "icall5", "cb", "jmpi", "switch", "br2", "loop",
-                                      "ibin", "alloca", "fbin", "idx", "callg6", "callg7", "gcall", "rblk", "blkv", "callg12", "callg13", "callg14", "fmovm", "lref1", "lref2", "addrcall", "addrld"}
+                                      "ibin", "alloca", "fbin", "idx", "callg6", "callg7", "gcall", "rblk", "blkv", "callg12", "callg13", "callg14", "fmovm", "lref1", "lref2", "addrcall", "addrld", "bsblk", "callva"}
          ELSE IF Vocab = "single" THEN (KindsInt \cup KindsFp \cup {"calla", "callg6", "callg7", "rblk", "blkv", "callg12", "callg13",
-                                                                      "callg14", "icall", "icall5"}) \ {"callg3", "lref1", "lref2"}   \* functions with at most one result
+                                                                      "callg14", "icall", "icall5"}) \ {"callg3", "lref1", "lref2", "callva"}   \* functions with at most one result
          ELSE KindsInt \cup KindsFp \cup {"calla", "callg6", "callg7", "rblk", "blkv", "callg12", "callg13", "callg14"}
 NeedFull == {"pld", "pst", "gcall"}
 Kinds == (IF Lean THEN KindsOf \ NeedFull ELSE KindsOf)
 
 (* holes of each kind, in order; a hole name selects its domain below *)
 PA == 23 + slot        \* the alloca pointer register of the current slot
+RBS == 23 + NSlots + slot   \* the stack-mark register of the current slot
 Holes(k) ==
   CASE k = "ibin" -> <<"safebin", "idst", "isrc", "isrc">>
     [] k = "iun" -> <<"iun", "idst", "isrc">>
@@ -215,6 +232,8 @@ Holes(k) ==
     [] k = "lref1" -> <<"fwd">>
     [] k = "lref2" -> <<"fwd", "anyslot">>
     [] k = "idx" -> <<"isrcreg", "imemty", "ireg", "scale">>
+    [] k = "bsblk" -> <<"ireg", "isrc", "asize">>
+    [] k = "callva" -> <<"ireg", "nva", "isrc", "isrc", "isrc", "dsrc">>
     [] k = "addrst" -> <<"ireg", "aty", "isrc", "ireg">>
     [] k = "addrld" -> <<"ireg", "aty", "ireg">>
     [] k = "addrcall" -> <<"ireg", "ireg", "isrc">>
@@ -264,6 +283,7 @@ Dom(h) ==
     [] h = "fdst" -> FDst(CurFmt) [] h = "fsrc" -> FSrc(CurFmt)
     [] h = "i2fop" -> {"i2", "ui2"}
     [] h = "preg" -> PRegs
+    [] h = "nva" -> 0..3
     [] h = "aty" -> {[insn |-> "addr", ty |-> "i64"], [insn |-> "addr32", ty |-> "i32"], [insn |-> "addr32", ty |-> "u32"],
                      [insn |-> "addr16", ty |-> "i16"], [insn |-> "addr16", ty |-> "u16"], [insn |-> "addr8", ty |-> "i8"],
                      [insn |-> "addr8", ty |-> "u8"]}
@@ -300,6 +320,13 @@ Render(k, v) ==
                          InsIn("mov", Mem("i32", 4, PA, 0, 1), <<Imm(FromNat(77))>>),
                          InsIn("add", v[3], <<Mem("i64", 8, PA, 0, 1), Mem("u32", 4, PA, 0, 1)>>)>>
     [] k = "jmpi" -> <<[op |-> "laddr", d |-> Reg(RTMP2), l |-> v[1]], [op |-> "jmpi", s |-> <<Reg(RTMP2)>>]>>
+    \* a block with automatic release of its alloca memory (also executed repeatedly inside loops)
+    [] k = "bsblk" -> <<[op |-> "bstart", d |-> Reg(RBS), s |-> <<>>], [op |-> "alloca", d |-> Reg(PA), s |-> <<v[3]>>],
+                        InsIn("mov", Mem("i64", 8, PA, 0, 1), <<v[2]>>), InsIn("add", v[1], <<Mem("i64", 8, PA, 0, 1), Imm(FromNat(3))>>),
+                        [op |-> "bend", s |-> <<Reg(RBS)>>]>>
+    \* call of a MIR function with a variable number of arguments: n integers, then a double
+    [] k = "callva" -> <<[op |-> "call", callee |-> [k |-> "func", f |-> 17], res |-> <<v[1], Reg(12)>>,
+                          args |-> <<Imm(FromNat(v[2]))>> \o SubSeq(<<v[3], v[4], v[5]>>, 1, v[2]) \o <<v[6]>>]>>
     \* variables whose address is taken: store / load through the address (every width), a callee writing the caller's
     \* variable, an FP variable written through its address; the variable stays an ordinary register everywhere else
     \* after a narrow store only the stored bytes of the variable are defined: it is re-extended from its own width, as a compiler does
@@ -443,7 +470,7 @@ InitMem(buf, lrs) ==
     [sz |-> 20, live |-> TRUE,
      cells |-> [i \in 1..20 |-> ByteC((<<11, 0, 0, 0>> \o <<254, 255, 255, 255>> \o <<255, 255, 255, 127>> \o <<5, 0, 0, 0, 0, 0, 0, 0>>)[i])]],
     [sz |-> 8 * Len(lrs), live |-> TRUE, cells |-> LrCellsOf(lrs)]>>
-InitFrames == <<[f |-> 1, id |-> 0, pc |-> 1, regs |-> [r \in 1..Len(MainRegTy) |-> IF r = 1 THEN PtrV(1, 0) ELSE UndefV],
+InitFrames == <<[f |-> 1, id |-> 0, va |-> <<>>, pc |-> 1, regs |-> [r \in 1..Len(MainRegTy) |-> IF r = 1 THEN PtrV(1, 0) ELSE UndefV],
                  base |-> 4, ovf |-> NoOvf]>>
 MainFunc ==
   [name |-> "main", params |-> <<"p">>, res |-> <<"i64">>, regty |-> MainRegTy, lrefs |-> LrSeq,
@@ -451,7 +478,7 @@ MainFunc ==
 Finalize ==
   /\ phase = "build" /\ slot = NSlots + 1 /\ cur.kind = ""
   /\ phase' = "run"
-  /\ prog' = [funcs |-> <<MainFunc, G1, G2, G3, G4, G5, G6, G7, G8, G9, G10, G11, G12, G13, G14, G15>>]
+  /\ prog' = [funcs |-> <<MainFunc, G1, G2, G3, G4, G5, G6, G7, G8, G9, G10, G11, G12, G13, G14, G15, G16>>]
   /\ mem' = InitMem(InitBuf, LrSeq)
   /\ frames' = InitFrames
   /\ status' = "run"
@@ -489,5 +516,5 @@ RegsTyped ==
   status = "run" =>
     \A i \in 1..Len(frames) : \A r \in 1..Len(frames[i].regs) :
       LET v == frames[i].regs[r]  ty == prog.funcs[frames[i].f].regty[r] IN
-      v.t = "u" \/ (ty = "i" /\ v.t \in {"i", "p", "l", "fn", "ld", "ra", "nv"}) \/ (ty # "i" /\ v.t = "f" /\ InFmt(v.x, ty))
+      v.t = "u" \/ (ty = "i" /\ v.t \in {"i", "p", "l", "fn", "ld", "ra", "nv", "sm"}) \/ (ty # "i" /\ v.t = "f" /\ InFmt(v.x, ty))
 =============================================================================
